@@ -20,7 +20,8 @@ def run(tier, seed):
         "ghost cnt(d, p) = first unused sub-offset at port p: its defining property is assumed where used (A_cnt clauses) - it exists because link dictionaries are finite",
         "generator functions executed eagerly (result = sequence of yielded values); filtered comprehension by a ghost position function",
         "node indices of handles are non-negative; termination of the sub-offset scans is not proved",
-        "Hugr._add_node: verified in the thorough tier only (sequence-with-index-store queries are slow); its contract is used by add_node / add_const in the quick tier",
+        "Hugr._add_node: attempted in the thorough tier only (sequence-with-index-store queries are slow) and there only partly discharged within the budgets (the evidence of a thorough run lists the open obligations: "
+        "re-establishing nodes_wf before _update_port_count); its contract is therefore an ASSUMED contract for add_node / add_const - bounded.c04 exercises it on every history",
         "every solver verdict cross-checked by a second solver",
     ]
     res.assumptions = ["delete_link, _close_sub_offset_gap, delete_node and insert_hugr are NOT proved: the contract for the gap-closing loop is stated in contracts/_pending/base_gap.py but exceeds the solver budget; "
